@@ -7,7 +7,7 @@
 (* rewriter and prints one verdict line per (record, property).            *)
 (* The post-condition only states that every record was consumed.          *)
 (***************************************************************************)
-EXTENDS Sites, Hygiene, LiteralsObs, Rewriter, Config, Json, IOUtils
+EXTENDS Sites, Hygiene, LiteralsObs, Rewriter, Config, EffectOrder, Json, IOUtils
 
 Recs == ndJsonDeserialize(IOEnv.TRACE)
 
@@ -44,12 +44,12 @@ JudgeOk(r) ==
   \E rout \in {TreeOf(r.out)} :
   \E clash \in {IF modified THEN {o \in RpOcc(rin, [blk |-> FALSE, ex |-> FALSE], r.cfg.tpl # "") : o[1] \in LetNames(rout)} ELSE {}} :
   IF modified /\ ~r.swc_out_ok THEN
-    /\ \A p \in {"C02", "C03", "C04", "C05", "C06", "C07", "C12", "C15"} : Verdict(r.rid, p, "na", "output does not parse, see C08")
+    /\ \A p \in {"C01", "C02", "C03", "C04", "C05", "C06", "C07", "C12", "C15"} : Verdict(r.rid, p, "na", "output does not parse, see C08")
     /\ Verdict(r.rid, "C08", "reject", "the rewriter's own parser rejects the output")
   ELSE IF clash # {} THEN
     \* the input itself uses a name the output declares as a temporary: injected names cannot be
     \* told apart structurally, so only C06 (which is about exactly this) is decided
-    /\ \A p \in {"C02", "C03", "C04", "C05", "C07", "C12", "C15"} : Verdict(r.rid, p, "na", "reserved-name clash, see C06")
+    /\ \A p \in {"C01", "C02", "C03", "C04", "C05", "C07", "C12", "C15"} : Verdict(r.rid, p, "na", "reserved-name clash, see C06")
     /\ J08(r, modified, IF \E o \in clash : o[2] THEN {} ELSE {"dev:D9-reserved-prefix-identifier-in-unscanned-position"})
     /\ IF \E o \in clash : o[2]
        THEN Verdict(r.rid, "C06", "reject", <<"reserved-prefix identifier of the input is captured / redeclared by an injected let", clash>>)
@@ -85,10 +85,26 @@ JudgeOk(r) ==
      ELSE IF m.devs # {} THEN Verdict(r.rid, "C02", "dev", m.devs)
      ELSE Verdict(r.rid, "C02", "ok", IF modified THEN "erased" ELSE "untouched")
   \* ---- C01 (static hint for the dynamic decider) : a lowered optional call that dropped its receiver
-  /\ IF m.ok /\ HasOrigin(e, D21Mark) THEN Verdict(r.rid, "C01", "dev", {"D21-optional-call-loses-receiver"})
+  \* ---- hints for the dynamic decider (H01): shapes of named deviations it may have to attribute
+  /\ IF m.ok /\ HasOrigin(e, D21Mark) THEN Verdict(r.rid, "H01", "dev", {"D21-optional-call-loses-receiver"})
      ELSE TRUE
   /\ IF m.ok /\ \E i \in siteIdx : sites[i].ns /\ sites[i].id \in hookedIds
-     THEN Verdict(r.rid, "C01", "dev", {"D22-arguments-evaluated-before-absent-callee-throws"}) ELSE TRUE
+     THEN Verdict(r.rid, "H01", "dev", {"D22-arguments-evaluated-before-absent-callee-throws"}) ELSE TRUE
+  \* ---- C01 (static half) : the symbolic order of effects of the output is that of the input
+  /\ IF ~modified THEN Verdict(r.rid, "C01", "na", "not modified")
+     ELSE IF ~m.ok THEN Verdict(r.rid, "C01", "na", "C02 failed")
+     ELSE IF r.in_mentions_ns THEN Verdict(r.rid, "C01", "na", "the input mentions the hook namespace")
+     ELSE \E effOut \in {EffectsOf(rout, Injected(rout, rin), TRUE, {})} :
+          \E diff \in {FirstEffectDiff(EffectsOf(rin, {}, FALSE, {}), effOut, 1)} :
+          \E bareIds \in {{sites[i].id : i \in {j \in siteIdx : sites[j].k = "bare" /\ sites[j].id \in hookedIds}}} :
+          IF diff = "" THEN Verdict(r.rid, "C01", "ok", Len(marks))
+          ELSE IF bareIds # {} /\ FirstEffectDiff(EffectsOf(rin, {}, FALSE, bareIds), effOut, 1) = ""
+               \* equal once the identifier callee of the hooked bare calls is read after their arguments
+               THEN Verdict(r.rid, "C01", "dev", {"D23-bare-callee-read-after-arguments"})
+          ELSE IF D6Dev \in m.devs THEN Verdict(r.rid, "C01", "dev", {D6Dev})
+          ELSE IF "dev:D7b-nonconstant-sum-operand-omitted" \in whys THEN Verdict(r.rid, "C01", "dev", {"D7b-nonconstant-sum-operand-omitted"})
+          ELSE IF HasOrigin(e, D21Mark) THEN Verdict(r.rid, "C01", "dev", {"D21-optional-call-loses-receiver"})
+          ELSE Verdict(r.rid, "C01", "reject", diff)
   \* ---- C03 (static half) : hook argument lists
   /\ IF whys \subseteq KnownDevWhys /\ whys # {} THEN Verdict(r.rid, "C03", "dev", whys)
      ELSE IF whys # {} THEN Verdict(r.rid, "C03", "reject", whys)
